@@ -576,7 +576,7 @@ pub(crate) fn is_relaxed_bound(bound: &syn::TypeParamBound) -> bool {
 }
 
 /// Whether the where clause has a `T: ?Sized` for this type parameter
-fn relaxed_in_where_clause(ident: &syn::Ident, generics: &syn::Generics) -> bool {
+pub(crate) fn relaxed_in_where_clause(ident: &syn::Ident, generics: &syn::Generics) -> bool {
     generics
         .where_clause
         .iter()
